@@ -1,0 +1,48 @@
+//go:build verif
+
+package evm
+
+// Contracts for the deductive checker in /verif (comment-only; compiled only with -tags verif).
+// C17, gas-wanted accumulation: the figure EndBlock turns into the next base fee is fed by this decorator.
+// Lib specs: /verif/specs/c17; the fee market keeper's methods use the contracts of x/feemarket/keeper (`sameas`).
+
+/*@
+func (EVMKeeper).GetParams
+    params ek, ctx
+    pure as evmk_params
+func (DynamicFeeEVMKeeper).ChainID
+    params ek
+    pure as evmk_chainid
+func (FeeMarketKeeper).GetParams
+    sameas (github.com/haqq-network/haqq/x/feemarket/keeper.Keeper).GetParams
+func (FeeMarketKeeper).GetBaseFeeEnabled
+    sameas (github.com/haqq-network/haqq/x/feemarket/keeper.Keeper).GetBaseFeeEnabled
+func (FeeMarketKeeper).AddTransientGasWanted
+    sameas (github.com/haqq-network/haqq/x/feemarket/keeper.Keeper).AddTransientGasWanted
+
+// C17: the transaction's declared gas (gas limit) is added to the transient gas-wanted counter exactly when London is active at
+// this height and the base fee is enabled at this height - the predicate of Params.IsBaseFeeEnabled / CalculateBaseFee - and the
+// transaction is not rejected for exceeding the block gas limit; nothing else of the fee market state moves; `next` gets the
+// same arguments, and its results are returned.
+func (GasWantedDecorator).AnteHandle
+    let cfg = chaincfg_eth(evmk_params(gwd.evmKeeper, ctx).ChainConfig, evmk_chainid(gwd.evmKeeper))
+    let london = london_at(cfg, ctx_height(ctx))
+    let isfee = implements(tx, "github.com/cosmos/cosmos-sdk/types.FeeTx")
+    let gas = feetx_gas(tx)
+    let enabled = !old(fm_params).NoBaseFee && ctx_height(ctx) >= old(fm_params).EnableHeight
+    let toobig = isfee && london && gas > block_gas_limit(ctx)
+    requires keepers: gwd.evmKeeper != nil && gwd.feeMarketKeeper != nil
+    // uint64 addition is modelled without wrap-around (see AddTransientGasWanted)
+    requires nowrap: fm_transient_gas + feetx_gas(tx) <= 18446744073709551615
+    modifies fm_params, fm_block_gas, fm_transient_gas   // the first two only through `next`, which is unknown code
+    allow frame
+    call next requires same: tx == old(tx) && ctx == old(ctx) && simulate == old(simulate)
+    call next requires counted: fm_transient_gas == old(fm_transient_gas) + ite(isfee && london && enabled, gas, 0)
+    call next requires rest: fm_params == old(fm_params) && fm_block_gas == old(fm_block_gas)
+    call next requires fits: !toobig
+    ensures rejected: toobig ==> err != nil && newCtx == ctx && fm_transient_gas == old(fm_transient_gas)
+            && fm_params == old(fm_params) && fm_block_gas == old(fm_block_gas)
+    // the two call sites of `next`: not a fee tx / London inactive, and the accumulating path
+    ensures passthrough1: !(isfee && london) ==> newCtx == ret(next, 1, 0) && err == ret(next, 1, 1)
+    ensures passthrough2: isfee && london && !toobig ==> newCtx == ret(next, 2, 0) && err == ret(next, 2, 1)
+@*/
